@@ -128,7 +128,7 @@ def siblings_leg(ctx):
 
     REG = tasks()
     n = 0
-    ovs = OVERRIDES[: ctx.pick(7, len(OVERRIDES))]
+    ovs = OVERRIDES[: ctx.pick(8, len(OVERRIDES))]
     for cfg in CONFIG_CTX[:2]:
         for parent_o in (None, {"a": {"b": 4}}):
             for trio in itertools.product(ovs, repeat=ctx.pick(2, 3)):
@@ -157,7 +157,7 @@ def run(ctx):
     from engine.common import check_harness_errors
 
     seams.template_db()
-    ovs = OVERRIDES[: ctx.pick(7, len(OVERRIDES))]
+    ovs = OVERRIDES[: ctx.pick(8, len(OVERRIDES))]
     combos = [(o, c, r) for o in itertools.product(ovs, repeat=3) for c in CONFIG_CTX[: ctx.pick(2, 3)] for r in RUN_CTX[: ctx.pick(2, 3)]]
     combos = ctx.rotate(combos)
     chunks = [combos[i:i + 25] for i in range(0, len(combos), 25)]
